@@ -19,8 +19,8 @@ type ValOpts struct {
 	NoNaN            bool // never produce NaN
 	NoNegZero        bool
 	SmallStrings     bool
-	ASCII            bool // strings: printable ASCII only
-	NoNullInUnion    bool // never put a null inside a non-null union value
+	ASCII            bool       // strings: printable ASCII only
+	NoNullInUnion    bool       // never put a null inside a non-null union value
 	TypeValues       []zed.Type // candidates for values of type `type`
 }
 
